@@ -320,4 +320,42 @@ def process (s : Suite) (b : Int) (g : Bool) (affected : List Nat) (produced : L
   | (s1, some e) => (s1, some e)
   | (s1, none) => (reloadAll (writeDatabase g s1), none)
 
+/-! ### histories over the whole suite ("one or more tables") and their plain-list specification -/
+
+/-- a suite operation: an operation on table `k`, or `ts.commit()` / `ts.reload()` (re-opening likewise) -/
+inductive SOp
+  | at (k : Nat) (op : Op)
+  | commit
+  | reload
+deriving Repr
+
+def stepS (s : Suite) : SOp → Suite × Option Err
+  | .at k op => stepAt s k op
+  | .commit => commitAll s
+  | .reload => (reloadAll s, none)
+
+def runS (s : Suite) : List SOp → Suite × List (Option Err)
+  | [] => (s, [])
+  | o :: os =>
+    let (s1, e) := stepS s o
+    let (s2, es) := runS s1 os
+    (s2, e :: es)
+
+/-- the same on one plain list (and its stored copy) per table, the tables being independent: an
+operation on table `k` touches list `k` only; commit stores EVERY list, reload restores EVERY list -/
+def specStepS (ws : List Nat) (ss : List S) : SOp → List S × Option Err
+  | .at k op =>
+    match ss[k]?, ws[k]? with
+    | some x, some w => let (x', e) := specStep w x op; (ss.set k x', e)
+    | _, _ => (ss, some .itsdbError)
+  | .commit => (ss.map (fun x => ⟨x.cur, x.cur⟩), none)
+  | .reload => (ss.map (fun x => ⟨x.stored, x.stored⟩), none)
+
+def specRunS (ws : List Nat) (ss : List S) : List SOp → List S × List (Option Err)
+  | [] => (ss, [])
+  | o :: os =>
+    let (s1, e) := specStepS ws ss o
+    let (s2, es) := specRunS ws s1 os
+    (s2, e :: es)
+
 end Verif.C10
